@@ -69,6 +69,27 @@ Blank(c) == c = Inv \/ (c[1] \in {0, 32} /\ c[3] = 0)      \* what justify / cen
 MapC(m, c) == IF c = Inv THEN c ELSE IF <<c[5], c[1]>> \in DOMAIN m THEN [c EXCEPT ![1] = m[<<c[5], c[1]>>]] ELSE c
 NoMap == [k \in {} |-> 0]
 
+\* What a supplied glyph map must satisfy (the maps are uninterpreted, but not arbitrary).  For the default font (CP437) the
+\* engine's own unit tests (test_generate_flipx_table / test_generate_flipy_table) list the mirror pairs:
+FlipXPairs437 == {<<40, 41>>, <<41, 40>>, <<47, 92>>, <<92, 47>>, <<60, 62>>, <<62, 60>>, <<91, 93>>, <<93, 91>>, <<123, 125>>, <<125, 123>>,
+  <<169, 170>>, <<170, 169>>, <<174, 175>>, <<175, 174>>, <<180, 195>>, <<195, 180>>, <<181, 198>>, <<198, 181>>, <<182, 199>>, <<199, 182>>,
+  <<183, 214>>, <<214, 183>>, <<185, 204>>, <<204, 185>>, <<187, 201>>, <<201, 187>>, <<188, 200>>, <<200, 188>>, <<189, 211>>, <<211, 189>>,
+  <<190, 212>>, <<212, 190>>, <<191, 218>>, <<218, 191>>, <<192, 217>>, <<217, 192>>, <<221, 222>>, <<222, 221>>, <<242, 243>>, <<243, 242>>,
+  <<27, 26>>, <<26, 27>>, <<112, 113>>, <<113, 112>>, <<186, 199>>, <<199, 186>>, <<17, 16>>, <<16, 17>>, <<213, 184>>, <<184, 213>>}
+FlipYPairs437 == {<<183, 189>>, <<189, 183>>, <<184, 190>>, <<190, 184>>, <<187, 188>>, <<188, 187>>, <<191, 217>>, <<217, 191>>, <<192, 218>>, <<218, 192>>,
+  <<193, 194>>, <<194, 193>>, <<200, 201>>, <<201, 200>>, <<202, 203>>, <<203, 202>>, <<207, 209>>, <<209, 207>>, <<208, 210>>, <<210, 208>>,
+  <<211, 214>>, <<214, 211>>, <<212, 213>>, <<213, 212>>, <<220, 223>>, <<223, 220>>, <<24, 25>>, <<25, 24>>, <<30, 31>>, <<31, 30>>, <<33, 173>>, <<173, 33>>}
+\* m = the map without the codes in `unst` (codes whose image depends on hash-map iteration order, e.g. 199 -> 182 or 186):
+\*   every listed code with one listed partner has exactly that image; nothing outside the list is mapped; the map is
+\*   involution-like: the image of a mapped code is mapped too (check_bidirect)
+MapSane437(m, pairs, unst) ==
+  /\ \A p \in pairs : (\A q \in pairs : q[1] = p[1] => q = p) /\ <<0, p[1]>> \notin unst => <<0, p[1]>> \in DOMAIN m /\ m[<<0, p[1]>>] = p[2]
+  /\ \A k \in DOMAIN m : k[1] = 0 => \E p \in pairs : p[1] = k[2]
+MapClosed(m, unst) == \A k \in DOMAIN m : <<k[1], m[k]>> \in DOMAIN m \/ <<k[1], m[k]>> \in unst
+\* flip_x mirrors / and \ in every font (hard-wired in generate_flipx_table)
+MapsTo(m, pg, a, b, unst) == <<pg, a>> \in unst \/ (<<pg, a>> \in DOMAIN m /\ m[<<pg, a>>] = b)
+MapSlashes(m, pages, unst) == \A pg \in pages : MapsTo(m, pg, 47, 92, unst) /\ MapsTo(m, pg, 92, 47, unst)
+
 \* ---------------------------------------------------------------------------------------------- layers
 \* [w, h, ox, oy, nl, lock, al, pl, g]:  lock = 1: is_locked or hidden (Layer::set_char refuses every write),
 \* al = 1: alpha channel present and locked (Layer::set_char refuses to write over an invisible cell),
